@@ -13,7 +13,7 @@ RULE = (
     "with an independent scan for maximal classical runs and each section's expressions with a reversible simulation over symbolic entry values "
     "(all 2^nq entry states); non-trivial = the circuit has >=1 classical gate; distinct by gate list"
 )
-DECIDING = ["decompiled", "sections_checked", "expressions_checked"]
+DECIDING = ["redecompiled_after_growth", "decompiled", "sections_checked", "expressions_checked"]
 ASSUMPTIONS = ["classical gates = X, CX, CCX, MCX; barriers are ignored; the I gate and MCtrl(X) are left out of the workload (the library itself does not treat them consistently as classical)",
                "a section's half-open index range may include barriers adjacent to the run but no other gate"]
 
@@ -88,55 +88,90 @@ def _check_inner(case):
     nq = qc.num_qubits
     if nq > 14:
         return {"status": "skipped", "key": key}
-    gates0 = list(qc.gates)
     fails, cnt, cov = [], {}, [f"origin:{case['origin']}"]
-    try:
-        res = Decompiler().decompile(qc)
-        secs = list(res)
-    except Exception as e:
-        return {"status": "checked", "key": key, "nontrivial": True, "evals": 1, "counters": {"decompiled": 1},
-                "fails": [{"kind": "decompile_exception", "msg": f"{type(e).__name__}: {e} on {sample}", "pred": None}]}
-    cnt["decompiled"] = 1
-    runs = runs_of(gates0)
-    if len(secs) != len(runs):
-        fails.append({"kind": "section_count", "msg": f"{len(secs)} sections reported, {len(runs)} maximal classical runs exist: reported {[s.index for s in secs]}, runs {[(r[0], r[-1]) for r in runs]} in {sample}", "pred": None})
-    sp = Space(nq)
-    for sec, run in zip(secs, runs):
-        cnt["sections_checked"] = cnt.get("sections_checked", 0) + 1
-        a, b = sec.index
-        inside = [i for i in range(max(a, 0), min(b, len(gates0))) if revsim.gate_kind(gates0[i][0]) != "nop"]
-        if a != run[0] or inside != run:
-            fails.append({"kind": "section_range", "msg": f"section index {sec.index} covers non-barrier gates {inside}, the run is {run} in {sample}", "pred": None})
-            continue
-        got = [(type(g).__name__, list(w)) for g, w, p in sec.gates]
-        exp = [(type(gates0[i][0]).__name__, list(gates0[i][1])) for i in run]
-        if got != exp:
-            fails.append({"kind": "section_gates", "msg": f"section {sec.index} lists gates {got}, the run holds {exp}", "pred": None})
-            continue
-        # semantics: expressions over entry values q0..q(n-1)
-        st = [sp.var(q) for q in range(nq)]
-        revsim.run([gates0[i] for i in run], st, sp)
-        env = {f"q{q}": sp.var(q) for q in range(nq)}
-        named = {}
-        for s, e in sec.expressions:
-            named[s.name if hasattr(s, "name") else str(s)] = e
-        for q in range(nq):
-            nm = f"q{q}"
-            cnt["expressions_checked"] = cnt.get("expressions_checked", 0) + 1
-            if nm in named:
-                try:
-                    v = boolvec.ev(named[nm], env, sp, {})
-                except boolvec.FreeSymbol as fs:
-                    fails.append({"kind": "expr_free_symbol", "msg": f"section {sec.index}: expression of {nm} mentions unknown symbol {fs}", "pred": None})
-                    continue
-                if v != st[q]:
-                    k = sp.first(v ^ st[q])
-                    fails.append({"kind": "expr_wrong", "msg": f"section {sec.index}: reported {nm} = {named[nm]} differs from the gates' action on entry state {k:0{nq}b}(q{nq - 1}..q0) in {sample}", "pred": None})
-            elif st[q] != sp.var(q):
-                fails.append({"kind": "expr_missing", "msg": f"section {sec.index}: qubit {q} is changed by the run but has no expression; in {sample}", "pred": None})
-        extra = [n for n in named if not (n.startswith("q") and n[1:].isdigit() and int(n[1:]) < nq)]
-        if extra:
-            fails.append({"kind": "expr_unknown_target", "msg": f"section {sec.index}: expressions for unknown names {extra}", "pred": None})
-    if [(type(g).__name__, list(w)) for g, w, p in qc.gates] != [(type(g).__name__, list(w)) for g, w, p in gates0]:
-        fails.append({"kind": "input_modified", "msg": "decompile changed the circuit's gate list", "pred": None})
-    return {"status": "checked", "key": key, "nontrivial": len(runs) > 0, "evals": sp.N * max(1, len(runs)), "fails": fails[:4], "counters": cnt, "cov": cov + [f"runs:{min(len(runs), 4)}"], "sample": sample}
+
+    def verify(qc, what=""):
+        gates0 = list(qc.gates)
+        nq = qc.num_qubits
+        try:
+            res = Decompiler().decompile(qc)
+            secs = list(res)
+        except Exception as e:
+            fails.append({"kind": "decompile_exception", "msg": f"{type(e).__name__}: {e} on {sample}{what}", "pred": None})
+            return []
+        cnt["decompiled"] = 1
+        runs = runs_of(gates0)
+        if len(secs) != len(runs):
+            fails.append({"kind": "section_count", "msg": f"{len(secs)} sections reported, {len(runs)} maximal classical runs exist: reported {[s.index for s in secs]}, runs {[(r[0], r[-1]) for r in runs]} in {sample}{what}", "pred": None})
+        sp = Space(nq)
+        for sec, run in zip(secs, runs):
+            cnt["sections_checked"] = cnt.get("sections_checked", 0) + 1
+            a, b = sec.index
+            inside = [i for i in range(max(a, 0), min(b, len(gates0))) if revsim.gate_kind(gates0[i][0]) != "nop"]
+            if a != run[0] or inside != run:
+                fails.append({"kind": "section_range", "msg": f"section index {sec.index} covers non-barrier gates {inside}, the run is {run} in {sample}{what}", "pred": None})
+                continue
+            got = [(type(g).__name__, list(w)) for g, w, p in sec.gates]
+            exp = [(type(gates0[i][0]).__name__, list(gates0[i][1])) for i in run]
+            if got != exp:
+                fails.append({"kind": "section_gates", "msg": f"section {sec.index} lists gates {got}, the run holds {exp}", "pred": None})
+                continue
+            # semantics: expressions over entry values q0..q(n-1)
+            st = [sp.var(q) for q in range(nq)]
+            revsim.run([gates0[i] for i in run], st, sp)
+            env = {f"q{q}": sp.var(q) for q in range(nq)}
+            named = {}
+            for s, e in sec.expressions:
+                named[s.name if hasattr(s, "name") else str(s)] = e
+            for q in range(nq):
+                nm = f"q{q}"
+                cnt["expressions_checked"] = cnt.get("expressions_checked", 0) + 1
+                if nm in named:
+                    try:
+                        v = boolvec.ev(named[nm], env, sp, {})
+                    except boolvec.FreeSymbol as fs:
+                        fails.append({"kind": "expr_free_symbol", "msg": f"section {sec.index}: expression of {nm} mentions unknown symbol {fs}", "pred": None})
+                        continue
+                    if v != st[q]:
+                        k = sp.first(v ^ st[q])
+                        fails.append({"kind": "expr_wrong", "msg": f"section {sec.index}: reported {nm} = {named[nm]} differs from the gates' action on entry state {k:0{nq}b}(q{nq - 1}..q0) in {sample}{what}", "pred": None})
+                elif st[q] != sp.var(q):
+                    fails.append({"kind": "expr_missing", "msg": f"section {sec.index}: qubit {q} is changed by the run but has no expression; in {sample}{what}", "pred": None})
+            extra = [n for n in named if not (n.startswith("q") and n[1:].isdigit() and int(n[1:]) < nq)]
+            if extra:
+                fails.append({"kind": "expr_unknown_target", "msg": f"section {sec.index}: expressions for unknown names {extra}", "pred": None})
+        if [(type(g).__name__, list(w)) for g, w, p in qc.gates] != [(type(g).__name__, list(w)) for g, w, p in gates0]:
+            fails.append({"kind": "input_modified", "msg": "decompile changed the circuit's gate list", "pred": None})
+        return runs
+
+    runs = verify(qc)
+    # the same (already decompiled) object grown by composition and decompiled again: every result describes the gates the
+    # circuit has NOW
+    if case["kind"] != "compiled" and nq <= 6 and not fails:
+        import random as _r
+
+        from qlasskit.qcircuit import QCircuit
+
+        rg = _r.Random(len(key))
+        tail_c = QCircuit(nq)
+        for _ in range(rg.randint(1, 3)):
+            if nq >= 2 and rg.random() < 0.6:
+                c_, t_ = rg.sample(range(nq), 2)
+                tail_c.cx(c_, t_)
+            else:
+                tail_c.x(rg.randrange(nq))
+        try:
+            grown = [(qc + tail_c, " [after qc + tail]"), (qc.repeat(2), " [after qc.repeat(2)]")]
+            for g_, w_ in grown:
+                cnt["redecompiled_after_growth"] = cnt.get("redecompiled_after_growth", 0) + 1
+                verify(g_, w_)
+            qc += tail_c
+            verify(qc, " [after qc += tail]")
+            qc.append_circuit(tail_c, list(range(nq)))
+            verify(qc, " [after append_circuit]")
+            qc.x(0)
+            verify(qc, " [after one more gate]")
+            cnt["redecompiled_after_growth"] = cnt.get("redecompiled_after_growth", 0) + 3
+        except Exception as e:
+            fails.append({"kind": "growth_exception", "msg": f"{type(e).__name__}: {e} on {sample}", "pred": None})
+    return {"status": "checked", "key": key, "nontrivial": len(runs) > 0, "evals": (1 << nq) * max(1, len(runs)), "fails": fails[:4], "counters": cnt, "cov": cov + [f"runs:{min(len(runs), 4)}"], "sample": sample}
